@@ -151,17 +151,14 @@ Proof.
   intros P. unfold del_row, all_idx. cbn [lw map fst snd]. rewrite P, !beqb_dkey_ikey, beqb_refl. auto.
 Qed.
 
-Lemma lw_del_i r i v : c_pk r = p -> c_data r = d -> idx_same d d0 = true -> sepfree v = true ->
+Lemma lw_del_i r i v : c_pk r = p -> c_data r = d0 -> sepfree v = true ->
   match lw (ikey i v p) (del_row r) with Some x => x | None => ent (Some d0) i v end = None.
 Proof.
-  intros P E IS S. unfold del_row, all_idx, ent. cbn [lw map fst snd]. rewrite P, E, beqb_ikey_dkey.
+  intros P E S. unfold del_row, all_idx, ent. cbn [lw map fst snd]. rewrite P, E, beqb_ikey_dkey.
   rewrite !beqb_ikey by (auto; apply data_ok_idx; auto).
-  unfold idx_same in IS. apply andb_true_iff in IS. destruct IS as [I1 I2].
-  apply beqb_eq in I1, I2.
-  change (idx_val d ITo = idx_val d0 ITo) in I1. change (idx_val d INote = idx_val d0 INote) in I2.
-  destruct i; cbn [idx_eqb andb]; [rewrite <- I1|rewrite <- I2].
-  - destruct (beqb v (idx_val d ITo)); auto.
-  - destruct (beqb v (idx_val d INote)); auto.
+  destruct i; cbn [idx_eqb andb].
+  - destruct (beqb v (idx_val d0 ITo)); auto.
+  - destruct (beqb v (idx_val d0 INote)); auto.
 Qed.
 
 Lemma lw_upd_d r : c_pk r = p -> c_data r = d -> c_old r = Some d0 ->
@@ -245,7 +242,7 @@ Proof.
       destruct CR as [Dd _].
       destruct O as [->|[ix [v [Sv ->]]]].
       * rewrite (lw_del_d p r P), get_encode_dkey, Om by auto. auto.
-      * pose proof (lw_del_i p (c_data r) d0 Dd r ix v P eq_refl IS Sv) as H.
+      * pose proof (lw_del_i p d0 Dd0 r ix v P IS Sv) as H.
         rewrite !get_encode_ikey, Om, O0 by auto. exact H.
 Qed.
 
